@@ -770,11 +770,15 @@ def readE : PE → Option JsExpr
   | .str v => some (.str v)
   | .ident g => if g == sOptData then none else if g == sOptIj then some .ijData else some (.local g)
   | .member x k =>
-    -- `opt_data.k`; `x.length`; `x.k`
+    -- `opt_data.k`; `(x).length` (the `length` function, soyjs 0a4b4eb) and `x.length`; `x.k`
     if isOptData x then some (.optData k)
+    else if k == sLength then
+      (match x with
+        | .paren y => (match readE y with | some jy => some (.call1 .length jy) | none => none)
+        | y => (match readE y with | some jy => some (.call1 .length jy) | none => none))
     else
       (match readE x with
-        | some jx => if k == sLength then some (.call1 .length jx) else some (.member jx k)
+        | some jx => some (.member jx k)
         | none => none)
   | .index x (.num i) => (match readE x with | some jx => some (.index jx (i : Int)) | none => none)
   | .call (.member (.ident m) f) (.cons a .nil) =>
